@@ -609,7 +609,7 @@ def spec_fold(events, cfg, strict_prefix=True):
             return
         text = "".join(pending)
         del pending[:]
-        if not any(n.name in cfg["pw"] for n in stack) and all(ch in spaces for ch in text):
+        if cls not in (1, 2, 3, 4, 5, 6) and not any(n.name in cfg["pw"] for n in stack) and all(ch in spaces for ch in text):
             text = "\n" if "\n" in text else " "
         if cls is None or cls == 0:
             cls = 0
